@@ -21,7 +21,7 @@ RULE = (
     "region bit-identical, must-raise classes (unknown item incl. integer positions, ambiguous bare item, slices, non-subset Dimension, "
     "several items of one dimension on a read).  Workload: ALL 3^n read and 4^n write selector assignments on n-dimensional arrays "
     "(n=4 quick, n=5 thorough) x length patterns incl. all-equal x subset orders (identity, reversed, rotated, random) x key spellings "
-    "(letter dict, name dict, mixed, bare item, tuple) x right-hand sides (number, ndarray, arrays with permuted / surplus / missing dims).  "
+    "(letter dict, name dict, mixed, bare item, tuple; keys of a neighbouring type such as fractional or textual years must be refused) x arrays of 10^4-10^6 entries with a dimension of 150-700 items stored in scrambled order and selections of a third to all of them (np.take twin) x right-hand sides (number, ndarray, arrays with permuted / surplus / missing dims).  "
     "Configuration signature = (read|write, dims and lengths, key form, selector kind per dimension, subset orders, rhs kind)"
 )
 
@@ -41,14 +41,14 @@ def one(rec, hub, tier, seed, letters, pat, pi, what, ai, assign):
     elif what == "write":
         drv.do_writes(hub, U, letters, letters, assign, rng, "dyadic")
     elif what == "misc":
-        if ai % 4 == 0:
-            drv.do_big_reads_writes(hub.rec, hub, rng)
         sub = letters[: ai % (len(letters) + 1)]
         drv.do_errors(hub, U, sub, rng)
         drv.do_items_where_split(hub, U, sub, rng)
         drv.do_whole_array(hub, U, sub, rng)
         drv.do_float32_targets(hub, U, sub, rng)
         drv.do_iterator_keys(hub, U, sub, rng)
+    elif what == "big":
+        drv.do_big_reads_writes(hub.rec, hub, rng)
     elif what == "history":
         sub = tuple(rng.permutation(list(letters))[: int(rng.integers(1, len(letters) + 1))])
         drv.do_history(hub, U, letters, sub, rng, 25 if tier == "quick" else 60)
@@ -64,7 +64,7 @@ def run(rec, hub, tier, seed, shard, nshards, budget):
     rec.exhaustive_spaces[space] = True
     phases = []
     for pi in range(len(patterns)):
-        phases += [[("read", pi, ai) for ai in range(len(reads))], [("write", pi, ai) for ai in range(len(writes))], [("misc", pi, ai) for ai in range(12)],
+        phases += [[("read", pi, ai) for ai in range(len(reads))], [("write", pi, ai) for ai in range(len(writes))], [("misc", pi, ai) for ai in range(12)], [("big", pi, ai) for ai in range(15 if tier == "quick" else 160)],
                    [("history", pi, ai) for ai in range(20 if tier == "quick" else 1500)]]
     work = interleave(*phases)
     for w, (what, pi, ai) in enumerate(work):
